@@ -144,7 +144,9 @@ def _gen_stmt(tp, feat, r, routines, n_clocks):
         p = tp.choice([0, 0.25, -0.25, 0.5, -0.5, 1, -1, 1.5, -2.5])
         if q and abs(p) >= q:
             p = 0
-        return ['grid', tp.draw(n_clocks), q, p]
+        # reference beat: the current beat (None) or an explicit one
+        ref = tp.choice([None, None, 0, 0.0, 1.5, -2, 7, 0.25, 100])
+        return ['grid', tp.draw(n_clocks), q, p, ref]
     if feat.get('draws') and x < 19:
         return ['draw', tp.choice(DRAW_KINDS)]
     if feat.get('sync') and x < 20 and tp.draw(2):
@@ -472,8 +474,11 @@ class Interp:
         out = {'beats': c.beats, 'secs': c.seconds, 'tempo': c.tempo,
                'beat_dur': c.beat_dur, 'bpb': c.beats_per_bar,
                'bbb': c.base_bar_beat, 'base_bar': c.base_bar}
+        ref = st[4] if len(st) > 4 else None
+        out['ref'] = ref
         try:
-            out['g'] = c.next_time_on_grid(q, p)
+            out['g'] = c.next_time_on_grid(q, p) if ref is None \
+                else c.next_time_on_grid(q, p, ref)
         except ValueError as e:
             out['g_err'] = 'ValueError'
         out['next_bar'] = c.next_bar()
